@@ -109,7 +109,8 @@ def programs(draw, base):
     avail = list(news)
     varnames = []
     for k in range(nvars):
-        vn = "tv_%d" % k
+        # intermediate names are the user's choice; some coincide with locals of the kernel template
+        vn = draw(st.sampled_from(["tv_%d" % k, "tv_%d" % k, ["shell", "form"][k % 2], ["weight", "norm"][k % 2]]))
         a = draw(st.sampled_from(avail))
         e = ("pow", rel(a), draw(st.sampled_from([0.5, 1.0, 2.0, -0.5]))) if a in news else ("mul", ("var", a), ("num", 1.5))
         if draw(st.booleans()) and len(news) > 1:
